@@ -245,6 +245,14 @@ func (h *NFSProcedureHandler) handleMkdir(body io.Reader, reply *RPCReply, authC
 		}
 	}
 
+	// Invalidate cached state that the new directory makes stale
+	h.server.handler.attrCache.Invalidate(node.path)
+	h.server.handler.attrCache.InvalidateNegativeInDir(node.path)
+	h.server.handler.attrCache.Invalidate(dirPath)
+	if h.server.handler.dirCache != nil {
+		h.server.handler.dirCache.Invalidate(node.path)
+	}
+
 	newNode, err := h.server.handler.Lookup(dirPath)
 	if err != nil {
 		return nfsErrorWithWcc(reply, mapError(err)), nil
